@@ -1,5 +1,5 @@
 # Wording of MANIFEST.json per property.
-HOOK_COMMITS = ['7bf3a7c', 'e0ec659', '7eca066']
+HOOK_COMMITS = ['7bf3a7c', 'e0ec659', '7eca066', '5972264', '8be5f35']
 NOT_YET = {}
 TEXT = {
  'C19': dict(
@@ -95,6 +95,14 @@ TEXT = {
         'Tie: the translator (go/ast) + ~1000 (quick) real-server cells per run. PARTIAL: "within bounded time while the server runs" needs scheduler fairness and is measured (1.5 s watchdog), not proved; which error a leader returns is re-stated in the model for leaders (from the table for followers/candidates).',
   note='Trusted: Coq kernel; the go/ast translator go/gotables (~400 lines); the cells harness. Two defects found by this check and repaired: F5 (futures without ShutdownCh) and F9 (Restore racing Shutdown panicked the process).',
   technique='Coq proof (invariant + rank over the future life cycle; table conditions by computation) over a table translated from the Go AST + real-server API cells under a watchdog',
+ ),
+ 'C18': dict(
+  level='Machine-checked theorems (Coq): for ANY sequence of gains and losses of leadership and ANY consumer speed, NotifyCh delivers a strictly alternating true,false,true,... sequence with exactly one message per transition; at rest the last value delivered equals whether the server is leader; '
+        'LeaderCh holds the most recent transition (or the consumer\'s last read was it) - over the model of runLeader whose notification program is READ FROM THE GO SOURCE on every run (C18_table_ok); '
+        'and over ANY history of RPCs, elections, store failures, crash cuts and restarts a running follower advertises only the sender of an AppendEntries/InstallSnapshot of its CURRENT term (C18_advertised_leader, on the node model tied to real servers). '
+        'PARTIAL: "that sender really was leader of the term" is C01 (cluster-level part monitored on real histories); best-effort delivery during Shutdown is outside the statement.',
+  note='Trusted: Coq kernel; go/gotables translator; harness. elections are assumed to start from the candidate loop (electSelf has no other caller) - hypothesis elects_ok of the theorem.',
+  technique='Coq proof (invariant over notification runs; advertised-leader invariant over node histories) + table translated from the Go AST + differential scripts on a real server and on overrideNotifyBool + monitored slow consumers and cluster histories',
  ),
  'C13': dict(
   level='Machine-checked theorems (Coq) over the model of checkLeaderLease and the lease timer arithmetic, for ANY configuration and contact times: the check steps down exactly when fewer than quorumSize voters '
